@@ -23,6 +23,11 @@ pub struct Case {
 	/// 0 none, 1 target confirmed first, 2 cancel twice, 3 coinbase entry id, 4 unknown id, 5 other account active (by slate id)
 	pub negative: u8,
 	pub acct: u8,
+	/// negative == 1 only: the wallet is NOT refreshed between the block that confirms the target and the cancel call
+	/// (cancel_tx's own refresh has to notice the confirmation); sender-side targets then become a posted send without
+	/// change, whose confirmation only the kernel proves
+	#[serde(default)]
+	pub late_refresh: bool,
 }
 
 fn side_op_strategy() -> BoxedStrategy<Op> {
@@ -104,10 +109,11 @@ impl Prop for C05 {
 			send_args_strategy(true, false, true, false),
 			prop::collection::vec(side_op_strategy(), 0..4),
 			any::<bool>(),
-			prop_oneof![10 => Just(0u8), 1 => Just(1u8), 1 => Just(2u8), 1 => Just(3u8), 1 => Just(4u8), 1 => Just(5u8)],
+			prop_oneof![10 => Just(0u8), 2 => Just(1u8), 1 => Just(2u8), 1 => Just(3u8), 1 => Just(4u8), 1 => Just(5u8)],
 			prop_oneof![3 => Just(0u8), 1 => Just(1u8)],
+			any::<bool>(),
 		)
-			.prop_map(|(base, pre, kind, args, between, by_slate_id, negative, acct)| Case {
+			.prop_map(|(base, pre, kind, args, between, by_slate_id, negative, acct, late_refresh)| Case {
 				base,
 				pre,
 				kind,
@@ -116,6 +122,7 @@ impl Prop for C05 {
 				by_slate_id,
 				negative,
 				acct,
+				late_refresh,
 			})
 			.boxed()
 	}
@@ -140,6 +147,16 @@ impl Prop for C05 {
 
 impl C05 {
 	fn run_case(&mut self, c: &Case, dir: &PathBuf, out: &mut Outcome) -> Result<(), String> {
+		let mut c = c.clone();
+		let late_refresh = c.negative == 1 && c.late_refresh;
+		if late_refresh && matches!(c.kind, 0 | 1 | 2 | 3 | 9 | 10 | 11) {
+			c.kind = 3;
+			c.args.amount = AmountPick::AllInclFee;
+			c.args.use_all = true;
+			c.args.change = 0;
+			c.args.incl_fee = false;
+		}
+		let c = &c;
 		let mut sim = base::open_copy(&self.bases[c.base as usize % self.bases.len()], dir)?;
 		sim.strict = true;
 		let w = 0usize;
@@ -247,7 +264,11 @@ impl C05 {
 				sim.frozen = Some(si);
 			}
 		}
-		if !matches!(sim.refresh(w), Ok(true)) {
+		// late_refresh: the confirming block is known to the node only; the cancel call's own refresh must find it
+		let unrefreshed_confirmed = late_refresh && sim.slates[si].mined_at.is_some();
+		if unrefreshed_confirmed {
+			out.class("confirmed-but-not-yet-refreshed");
+		} else if !matches!(sim.refresh(w), Ok(true)) {
 			return Err("refresh before S1 failed".into());
 		}
 		if c.negative == 5 {
@@ -318,7 +339,8 @@ impl C05 {
 		let s2 = snap::deep(sim.w(w), &self.scratch)?;
 		let i2 = info(&sim, w, 1)?;
 		let is_selfsend_ambiguous = false;
-		let cancellable = entry_x.as_ref().map(|e| !e.confirmed).unwrap_or(false) && matches!(c.negative, 0 | 1 | 2);
+		// a transaction that is on the chain is confirmed, whether or not the books had been brought up to date before
+		let cancellable = entry_x.as_ref().map(|e| !e.confirmed).unwrap_or(false) && matches!(c.negative, 0 | 1 | 2) && !unrefreshed_confirmed;
 		out.class(format!("negative={}", c.negative));
 		match (&res, cancellable) {
 			(Ok(()), true) => {
@@ -464,7 +486,8 @@ impl C05 {
 					out.nontrivial = true;
 				}
 				let d = snap::diff(&s1x, &s2);
-				if !d.is_empty() {
+				// (the refresh inside a refused cancel of a transaction confirmed meanwhile legitimately updates the books)
+				if !d.is_empty() && !unrefreshed_confirmed {
 					out.fail("c05:refused-but-changed", format!("refused cancel changed wallet state: {:?}", d));
 				}
 				let _ = (&v1x, &i1x);
